@@ -115,14 +115,24 @@ W = [
   "complete_multipart_upload into a bucket that no longer exists succeeds and recreates the bucket directory"),
 ]
 
+# classes closed by repairs in /repo: their witness histories stay in the corpus and must AGREE now
+FIXED = {
+ "fs:suffix-range-longer-than-object": "b89afe2", "fs:suffix-range-huge-panics": "b89afe2",
+ "fs:copy-onto-itself-destroys-object": "ca1e912",
+ "fs:put-into-missing-bucket": "1d0f501", "fs:create-upload-not-validated": "1d0f501",
+ "fs:stale-metadata-after-overwrite": "b01fec8", "fs:metadata-survives-delete": "b01fec8",
+}
+
 lines, findings = [], []
 for i, (cls, ops, what) in enumerate(W, 1):
     line = "\t".join(["fs", "w-" + cls[3:], "wild"] + ops)
     lines.append(line)
-    findings.append({"id": f"F-fs-{i}", "property": "C18", "component": "fs", "class": cls, "status": "open",
-                     "commit": None, "witness": line, "what": what})
+    commit = FIXED.get(cls)
+    findings.append({"id": f"F-fs-{i}", "property": "C18", "component": "fs", "class": cls,
+                     "status": "fixed" if commit else "open", "commit": commit, "witness": line,
+                     "what": (f"fixed: property=C18 {commit} " if commit else "") + what})
 with open(os.path.join(ROOT, "corpus", "fs.txt"), "w") as f:
-    f.write("# witness histories of the open findings of component fs (C18); written by corpus/fs.witness.py\n")
+    f.write("# witness histories of the findings of component fs (C18), open and fixed; written by corpus/fs.witness.py\n")
     f.write("\n".join(lines) + "\n")
 with open(os.path.join(ROOT, "known_findings.d", "fs.json"), "w") as f:
     json.dump({"comment": "deviations of s3s-fs from the abstract object store (C18); each witness is a whole history, replayed on the real code on every run",
